@@ -4,6 +4,7 @@ package sim
 
 import (
 	"fmt"
+	"strings"
 )
 
 // soakPct: percentage of runs of every family that are long ("soak") runs.
@@ -44,8 +45,16 @@ func (g G) drawHost(label string, c *IDPCfg, i int, m *MsgSpec) {
 		return
 	}
 	h := fmt.Sprintf("%s.idp.example", hostMarker(i))
+	if g.chance(label+".port", 10) {
+		h += g.pick(label+".portv", ":443", ":80", ":8443") // an explicit port is part of the host the issuer is derived from
+	}
 	if g.chance(label+".puny", 12) {
 		h = "xn--" + h // an internationalised (punycode) host name: legal, and it contains "--"
+	}
+	// RFC 7239: a host with a port is not a token and has to travel as a quoted-string
+	hq := h
+	if strings.Contains(h, ":") {
+		hq = `"` + h + `"`
 	}
 	switch c.IssuerKind {
 	case "host":
@@ -55,16 +64,16 @@ func (g G) drawHost(label string, c *IDPCfg, i int, m *MsgSpec) {
 		case 3:
 			// two header lines; the first proxy knows no host
 			m.Host = "internal.lb"
-			m.Forwarded = "for=203.0.113.7\nfor=192.0.2.1;host=" + h + ";proto=https"
+			m.Forwarded = "for=203.0.113.7\nfor=192.0.2.1;host=" + hq + ";proto=https"
 		case 4:
 			// one line, two elements; the second element names an inner host that must not win
 			m.Host = "internal.lb"
-			m.Forwarded = "for=203.0.113.7;host=" + h + ", for=10.0.0.1;host=inner-proxy.cluster.internal"
+			m.Forwarded = "for=203.0.113.7;host=" + hq + ", for=10.0.0.1;host=inner-proxy.cluster.internal"
 		case 0:
 			m.Host = h
 		case 1:
 			m.Host = "internal.lb"
-			m.Forwarded = "for=192.0.2.1;host=" + h + ";proto=https"
+			m.Forwarded = "for=192.0.2.1;host=" + hq + ";proto=https"
 		case 2:
 			m.Host = "internal.lb"
 			m.Forwarded = `for=192.0.2.1, host="` + h + `"`
@@ -72,7 +81,7 @@ func (g G) drawHost(label string, c *IDPCfg, i int, m *MsgSpec) {
 	case "header":
 		if g.chance(label+".hdr", 60) {
 			m.Host = "internal.lb"
-			m.XFHeader = "host=" + h
+			m.XFHeader = "host=" + hq
 			if len(c.Headers) > 1 {
 				m.XFWhich = g.weighted(label+".hdrw", 50, 20, 30)
 			}
